@@ -102,6 +102,8 @@ def install(interp):
         return hasattr(x, '__len__')
     abc_ns = dict(Iterable=_AbstractType('abc.Iterable', is_iterable), Sized=_AbstractType('abc.Sized', is_sized))
     abcmod = mod('collections.abc', **abc_ns)
+    # typing.Iterable is collections.abc.Iterable as far as isinstance() is concerned (the package tests `isinstance(v, Iterable)` with it)
+    M['typing'].ns['Iterable'] = abc_ns['Iterable']
     mod('collections', abc=abcmod)
 
     # ---- sys / os / io / misc
@@ -132,8 +134,22 @@ def install(interp):
             return BA(x.n, x.bit)
         return _copy.copy(x)
     mod('copy', copy=Builtin(copy_copy, 'copy.copy'))
-    mod('operator', **{n: Builtin(getattr(_operator, n), 'operator.' + n) for n in dir(_operator)
-                       if not n.startswith('_') and callable(getattr(_operator, n))})
+    # the operator module: the function forms of the operators go through the interpreter's own operator semantics (model objects
+    # dispatch to the package's __and__, __add__ ...); everything else is the host function
+    import ast as _ast
+    op_ns = {n: Builtin(getattr(_operator, n), 'operator.' + n) for n in dir(_operator)
+             if not n.startswith('_') and callable(getattr(_operator, n))}
+    _bin = {'and_': _ast.BitAnd, 'or_': _ast.BitOr, 'xor': _ast.BitXor, 'add': _ast.Add, 'sub': _ast.Sub, 'mul': _ast.Mult, 'lshift': _ast.LShift,
+            'rshift': _ast.RShift, 'floordiv': _ast.FloorDiv, 'mod': _ast.Mod, 'truediv': _ast.Div, 'pow': _ast.Pow}
+    for _n, _node in _bin.items():
+        op_ns[_n] = Builtin(lambda a, b, _node=_node: interp.binop(_node(), a, b), 'operator.' + _n)
+        op_ns['i' + _n.rstrip('_') if _n not in ('and_', 'or_') else 'i' + _n[:-1]] = Builtin(lambda a, b, _node=_node: interp.binop_inplace(_node(), a, b), 'operator.i' + _n)
+    _cmp = {'eq': _ast.Eq, 'ne': _ast.NotEq, 'lt': _ast.Lt, 'le': _ast.LtE, 'gt': _ast.Gt, 'ge': _ast.GtE, 'is_': _ast.Is, 'is_not': _ast.IsNot}
+    for _n, _node in _cmp.items():
+        op_ns[_n] = Builtin(lambda a, b, _node=_node: interp.compare(_node(), a, b), 'operator.' + _n)
+    op_ns['contains'] = Builtin(lambda a, b: interp.contains(a, b), 'operator.contains')
+    op_ns['getitem'] = Builtin(lambda a, k: interp.getitem(a, k), 'operator.getitem')
+    mod('operator', **op_ns)
 
     def is_bytesio(it, x):
         from . import files
